@@ -406,4 +406,5 @@ def _smallcurve(ctx, params):
                     if v is not True:
                         ctx.violation(f"small/lib-verify-rejects/{'z>=n' if z >= n else 'z<n'}", f"p={p} d={d} z={z} r={r} s={s}: verify -> {v}", sub={"d": d, "z": z, "first": first})
                     ctx.count("small.signed")
+                    ctx.bulk_distinct(1)
             ctx.nontrivial(["small", p, d])
